@@ -191,8 +191,8 @@ def run(res, tier, seed):
     res.assumptions = ['strings restricted to BMP and sort/group keys to values whose UTF-16 order equals code-point order',
                        'only expressions that mean the same in both languages (no None/null operands of + / .length / like / split / <)']
     rnd = random.Random(seed * 104395301 + 19)
-    cases = [c for c in gen_cases(rnd, 7000 if tier == 'quick' else 120000) if in_class(c)]
-    proj = [c for c in gen_projection_cases(random.Random(seed * 31 + 191), 1500 if tier == 'quick' else 25000) if in_class(c)]
+    cases = [c for c in gen_cases(rnd, 20000 if tier == 'quick' else 120000) if in_class(c)]
+    proj = [c for c in gen_projection_cases(random.Random(seed * 31 + 191), 4000 if tier == 'quick' else 25000) if in_class(c)]
     res.count('projection_cases(None / empty / missing cells)', len(proj))
     cases = cases + proj
     for c in cases:
